@@ -17,15 +17,17 @@
    Two parameters select the behaviour:
      [fx]  the repair build/fixes/C09_clamp.diff (applied to /repo as 95d346a, 4ffdf03, 82b2250);
            [fx = false] is the tree before it;
-     [fy]  the repair build/fixes/C09_reclamp_on_schema_update.diff: a schema update re-bounds the
-           quota in force at once, also while the limiter server is unavailable.
-   The theorems are about [fx = fy = true]; C09_Unrepaired.v refutes them for the other trees.
+     [fy]  the repair build/fixes/C09_reclamp_on_schema_update.diff (applied as 9fe3fd1, 6549ff0): a
+           schema update re-bounds the quota in force at once, also while the limiter server is unavailable;
+     [fz]  the repair build/fixes/C09_type_change_drops_remote_quota.diff: a schema update that changes
+           the flow-control TYPE drops the remote wrapper (its quota was granted for the other type).
+   The theorems are about [fx = fy = fz = true]; C09_Unrepaired.v refutes them for the other trees.
    Machine integers: int32 values are [Z] with explicit [wrap32]/[wrapu32] at every
    Go conversion.  No proofs here. *)
 From KG Require Import Prelude.
 Open Scope Z_scope.
 
-(* ---------- configuration (the limits change with ESchema, the type never) ---------- *)
+(* ---------- configuration (type, strategy and limits change with ESchema) ---------- *)
 Inductive kind := KMI | KTB.                  (* max-in-flight schema | token-bucket schema *)
 Inductive strategy := SEmpty | SLocal | SAlloc | SCount | SOther.   (* "", local, globalAllocate, globalCount, other text *)
 Inductive mode := MRemote | MLocal | MOther.  (* upstreamLimiter.rateLimiter *)
@@ -37,7 +39,8 @@ Record config := { ck : kind; l1 : Z; l2 : Z; g1 : Z; g2 : Z }.
 Record static := { cfg : config; md : mode; cs : csk }.
 
 (* ---------- what the limiter server can say ---------- *)
-Inductive detail := DNone | DMI (m : Z) | DTB (q b : Z).       (* LimitItemDetail *)
+Inductive detail := DNone | DMI (m : Z) | DTB (q b : Z)        (* LimitItemDetail *)
+                  | DBoth (m q b : Z).                          (* both members set *)
 Record item := { idet : detail; istr : strategy }.             (* RateLimitItemConfiguration (name fixed) *)
 Inductive reply :=                                             (* RateLimitAcquireResult given to SetLimit *)
 | RErr (mx rate : Z)      (* Error != "" (not RequestIDTooOld); mx, rate = what the meter reports at that moment *)
@@ -49,9 +52,12 @@ Inductive ev :=
 | ECfgSync                      (* reconcile.updateGlobalCuntFlowControls *)
 | ECount (r : reply) (rt : Z)   (* globalCounter.send -> remoteWrapper.SetLimit, rt = requestTime *)
 | EHb (ok : bool)               (* one heartbeat outcome -> clientSets.setLeaderStatus *)
-| EElapse (sec : Z)             (* time passes *)
+| ELeader                       (* clientSets.sync sees another leader of the shard: setLeaderStatus(.., true) *)
+| EElapse (ms : Z)              (* time passes (milliseconds) *)
 | EStrategy (s : strategy)      (* schema update changing only the strategy -> localWrapper.Sync *)
-| ESchema (a b g h : Z)         (* schema update changing the limits (same type): local a,b ; global g,h *)
+| ESchema (k : kind) (x : strategy) (a b g h : Z)
+                                (* schema update (or the schema added again): type k, strategy x, local a,b ; global g,h *)
+| EDelete                       (* the schema is removed from the UpstreamCluster: FlowControlMap.Delete *)
 | EEnable.                      (* reconcile goroutine preempted between EnableRemoteFlowControl and Sync *)
 
 (* ---------- limiters ---------- *)
@@ -70,7 +76,8 @@ Record inner := {
 Record rwrap := { rin : option inner; rcfg : option item }.    (* remoteWrapper; rcfg None = zero value *)
 
 Record state := {
-  scfg : config;               (* localConfig: the limits currently configured *)
+  present : bool;              (* the schema name is in upstreamLimiter.flowControls *)
+  scfg : config;               (* localConfig: type and limits currently configured *)
   sstr : strategy;             (* localConfig.Strategy *)
   rem : option rwrap;          (* flowControlCache.remote *)
   hlast : bool; hready : bool; hage : Z;   (* heartbeatStatus: lastState, ready, seconds since lastChange *)
@@ -78,7 +85,7 @@ Record state := {
 }.
 
 Definition init (c : config) (s : strategy) : state :=
-  {| scfg := c; sstr := s; rem := None; hlast := false; hready := false; hage := 0; crashed := false |}.
+  {| present := true; scfg := c; sstr := s; rem := None; hlast := false; hready := false; hage := 0; crashed := false |}.
 
 (* ---------- small helpers ---------- *)
 Definition strategy_eqb (a b : strategy) : bool :=
@@ -91,8 +98,10 @@ Definition detail_eqb (a b : detail) : bool :=
   | DNone, DNone => true
   | DMI x, DMI y => x =? y
   | DTB q b, DTB q' b' => (q =? q') && (b =? b')
+  | DBoth m q b, DBoth m' q' b' => (m =? m') && (q =? q') && (b =? b')
   | _, _ => false
   end.
+Definition kind_eqb (a b : kind) : bool := match a, b with KMI, KMI | KTB, KTB => true | _, _ => false end.
 Definition item_eqb (a b : item) : bool := detail_eqb (idet a) (idet b) && strategy_eqb (istr a) (istr b).
 Definition ltype_eqb (a b : ltype) : bool :=
   match a, b with
@@ -108,12 +117,13 @@ Definition new_lim (d : detail) : lim :=
   match d with
   | DMI m => LMI (wrapu32 m)
   | DTB q b => LTB (wrapu32 q) (wrapu32 b)
+  | DBoth m _ _ => LMI (wrapu32 m)                 (* toFlowControlSchema looks at MaxRequestsInflight first *)
   | DNone => LInf                                  (* GuessFlowControlSchemaType -> Exempt: infinite bucket *)
   end.
 Definition lim_type (l : lim) : ltype :=
   match l with LMI _ => TMI | LTB _ _ => TTB | LInf => TExempt end.
 Definition det_type (d : detail) : ltype :=       (* GetFlowControlTypeFromLimitItem *)
-  match d with DMI _ => TMI | DTB _ _ => TTB | DNone => TUnknown end.
+  match d with DMI _ | DBoth _ _ _ => TMI | DTB _ _ => TTB | DNone => TUnknown end.
 (* flowControl.Resize / resizeableTokenBucket.Resize *)
 Definition resize_lim (l : lim) (n b : Z) : lim :=
   match l with LMI _ => LMI n | LTB _ _ => LTB n b | LInf => LInf end.
@@ -178,7 +188,7 @@ Definition new_inner (fx fy : bool) (it : item) : option inner :=
   let fc := new_lim (idet it) in
   if negb (strategy_eqb (istr it) SCount) then Some (blank WEmpty fc)
   else match idet it with
-       | DMI m => Some (mi_resize fx fy (blank WMI fc) (wrapu32 m))
+       | DMI m | DBoth m _ _ => Some (mi_resize fx fy (blank WMI fc) (wrapu32 m))
        | DTB q b => Some (tb_resize fx fy (blank WTB fc) (wrapu32 q) (wrapu32 b))
        | DNone => None            (* default branch reads limitItem.TokenBucket.QPS of a nil pointer *)
        end.
@@ -186,8 +196,8 @@ Definition new_inner (fx fy : bool) (it : item) : option inner :=
 (* the repair: bound the answered item by the configured global limit; reject a wrong type *)
 Definition sanitize (c : config) (it : item) : option item :=
   match ck c, idet it with
-  | KMI, DMI m => Some {| idet := DMI (clamp m 0 (g1 c)); istr := istr it |}
-  | KTB, DTB q b => Some {| idet := DTB (clamp q 0 (g1 c)) (clamp b 0 (g2 c)); istr := istr it |}
+  | KMI, DMI m | KMI, DBoth m _ _ => Some {| idet := DMI (clamp m 0 (g1 c)); istr := istr it |}
+  | KTB, DTB q b | KTB, DBoth _ q b => Some {| idet := DTB (clamp q 0 (g1 c)) (clamp b 0 (g2 c)); istr := istr it |}
   | _, _ => None
   end.
 
@@ -213,13 +223,13 @@ Definition rw_sync (fx fy : bool) (c : config) (w : rwrap) (it0 : item) : option
              || negb (strategy_eqb (rcfg_strategy w) (istr it))
           then recreate
           else match idet it, ck c with
-               | DMI m, KMI =>
+               | DMI m, KMI | DBoth m _ _, KMI =>
                    let m' := if g1 c <? m then g1 c else m in
                    Some {| rin := Some (inner_resize fx fy i (wrapu32 m') 0); rcfg := Some it |}
                | DTB q b, KTB =>
                    let q' := if g1 c <? q then g1 c else q in
                    Some {| rin := Some (inner_resize fx fy i (wrapu32 q') (wrapu32 b)); rcfg := Some it |}
-               | DMI _, KTB => None                     (* local.Config().GlobalMaxRequestsInflight is nil *)
+               | DMI _, KTB | DBoth _ _ _, KTB => None  (* local.Config().GlobalMaxRequestsInflight is nil *)
                | DTB _ _, KMI => None                   (* local.Config().GlobalTokenBucket is nil *)
                | DNone, _ => recreate
                end
@@ -282,9 +292,9 @@ Definition set_limit (fx : bool) (c : config) (i : inner) (r : reply) (rt : Z) :
 
 (* ---------- state updates ---------- *)
 Definition set_rem (s : state) (r : option rwrap) : state :=
-  {| scfg := scfg s; sstr := sstr s; rem := r; hlast := hlast s; hready := hready s; hage := hage s; crashed := crashed s |}.
+  {| present := present s; scfg := scfg s; sstr := sstr s; rem := r; hlast := hlast s; hready := hready s; hage := hage s; crashed := crashed s |}.
 Definition crash (s : state) : state :=
-  {| scfg := scfg s; sstr := sstr s; rem := rem s; hlast := hlast s; hready := hready s; hage := hage s; crashed := true |}.
+  {| present := present s; scfg := scfg s; sstr := sstr s; rem := rem s; hlast := hlast s; hready := hready s; hage := hage s; crashed := true |}.
 
 Definition empty_rw : rwrap := {| rin := None; rcfg := None |}.
 
@@ -296,28 +306,54 @@ Definition apply_sync (fx fy : bool) (c : config) (s : state) (it : item) : stat
   | None => crash s
   end.
 
-(* clientSets.setLeaderStatus with ServerHeartBeatTimeout = 5 s *)
+(* clientSets.setLeaderStatus with ServerHeartBeatTimeout = 5 s; [hage] in milliseconds *)
 Definition heartbeat (s : state) (ok : bool) : state :=
   let changed := negb (Bool.eqb (hlast s) ok) in
   let age := if changed then 0 else hage s in
   let rdy := if Bool.eqb (hready s) ok then hready s
              else if ok then true
-             else if 5 <=? age then false else hready s in
-  {| scfg := scfg s; sstr := sstr s; rem := rem s; hlast := ok; hready := rdy; hage := age; crashed := crashed s |}.
+             else if 5000 <=? age then false else hready s in      (* now.After(lastChange + 5 s) *)
+  {| present := present s; scfg := scfg s; sstr := sstr s; rem := rem s; hlast := ok; hready := rdy; hage := age; crashed := crashed s |}.
 
 Definition config_eqb (a b : config) : bool :=
   (l1 a =? l1 b) && (l2 a =? l2 b) && (g1 a =? g1 b) && (g2 a =? g2 b).
 
-Definition set_cfg (s : state) (c : config) (r : option rwrap) : state :=
-  {| scfg := c; sstr := sstr s; rem := r; hlast := hlast s; hready := hready s; hage := hage s; crashed := crashed s |}.
+Definition set_cfg (s : state) (c : config) (x : strategy) (r : option rwrap) : state :=
+  {| present := true; scfg := c; sstr := x; rem := r;
+     hlast := hlast s; hready := hready s; hage := hage s; crashed := crashed s |}.
 
-Definition step (fx fy : bool) (st : static) (s : state) (e : ev) : state :=
+(* UpstreamLimiter.Sync with the schema (type k, strategy x, limits c') *)
+Definition sync_schema (fx fy fz : bool) (s : state) (c' : config) (x : strategy) : state :=
+  let c := scfg s in
+  if negb (present s) then set_cfg s c' x None              (* NewFlowControlCache + first localWrapper.Sync *)
+  else if kind_eqb (ck c') (ck c) && config_eqb c' c && strategy_eqb x (sstr s) then s   (* DeepEqual *)
+  else if negb (kind_eqb (ck c') (ck c)) then
+    (* the type changes: a new local limiter, and localWrapper.Sync returns;
+       (fz) the remote wrapper, whose quota was granted for the other type, is stopped *)
+    set_cfg s c' x (if fz then None else rem s)
+  else if negb (enable_global x) then set_cfg s c' x None   (* stopRemoteWrapper *)
+  else if fy then                                           (* remote.rebound() = Sync(remoteConfig) *)
+    match rem s with
+    | Some w =>
+        match rin w, rcfg w with
+        | Some _, Some it =>
+            match rw_sync fx fy c' w it with
+            | Some w' => set_cfg s c' x (Some w')
+            | None => crash (set_cfg s c' x (rem s))
+            end
+        | _, _ => set_cfg s c' x (rem s)
+        end
+    | None => set_cfg s c' x None
+    end
+  else set_cfg s c' x (rem s).
+
+Definition step (fx fy fz : bool) (st : static) (s : state) (e : ev) : state :=
   let c := scfg s in
   if crashed s then s else
   match e with
-  | EQuota it => if enable_global (sstr s) then apply_sync fx fy c s it else s
+  | EQuota it => if present s && enable_global (sstr s) then apply_sync fx fy c s it else s
   | ECfgSync =>
-      if strategy_eqb (sstr s) SCount
+      if present s && strategy_eqb (sstr s) SCount
       then apply_sync fx fy c s {| idet := global_detail c; istr := SCount |}
       else s
   | ECount r rt =>
@@ -333,42 +369,25 @@ Definition step (fx fy : bool) (st : static) (s : state) (e : ev) : state :=
       | None => s
       end
   | EHb ok => heartbeat s ok
-  | EElapse sec =>
-      {| scfg := scfg s; sstr := sstr s; rem := rem s; hlast := hlast s; hready := hready s;
-         hage := hage s + (if sec <? 0 then 0 else sec);
+  | ELeader => heartbeat s true
+  | EElapse ms =>
+      {| present := present s; scfg := scfg s; sstr := sstr s; rem := rem s; hlast := hlast s; hready := hready s;
+         hage := hage s + (if ms <? 0 then 0 else ms);
          crashed := crashed s |}                 (* time does not run backwards *)
-  | EStrategy x =>
-      if strategy_eqb x (sstr s) then s
-      else {| scfg := scfg s; sstr := x; rem := if enable_global x then rem s else None;    (* stopRemoteWrapper *)
+  | EStrategy x => sync_schema fx fy fz s c x      (* the same schema with another strategy *)
+  | ESchema k x a b g h => sync_schema fx fy fz s {| ck := k; l1 := a; l2 := b; g1 := g; g2 := h |} x
+  | EDelete =>
+      if present s
+      then {| present := false; scfg := scfg s; sstr := sstr s; rem := None;
               hlast := hlast s; hready := hready s; hage := hage s; crashed := crashed s |}
-  | ESchema a b g h =>
-      (* localWrapper.Sync with new limits of the same type: the local limiter is resized (it is
-         [local_lim (scfg _)]); the remote wrapper is stopped if the strategy is not global,
-         (fy) else the quota in force is bounded again: remote.rebound() = Sync(remoteConfig) *)
-      let c' := {| ck := ck c; l1 := a; l2 := b; g1 := g; g2 := h |} in
-      if config_eqb c' c then s
-      else if negb (enable_global (sstr s)) then set_cfg s c' None
-      else if fy then
-        match rem s with
-        | Some w =>
-            match rin w, rcfg w with
-            | Some _, Some it =>
-                match rw_sync fx fy c' w it with
-                | Some w' => set_cfg s c' (Some w')
-                | None => crash (set_cfg s c' (rem s))
-                end
-            | _, _ => set_cfg s c' (rem s)
-            end
-        | None => set_cfg s c' None
-        end
-      else set_cfg s c' (rem s)
+      else s
   | EEnable =>
-      if enable_global (sstr s)
+      if present s && enable_global (sstr s)
       then match rem s with None => set_rem s (Some empty_rw) | Some _ => s end
       else s
   end.
 
-Definition run (fx fy : bool) (st : static) (s : state) (l : list ev) : state := fold_left (step fx fy st) l s.
+Definition run (fx fy fz : bool) (st : static) (s : state) (l : list ev) : state := fold_left (step fx fy fz st) l s.
 
 (* ---------- upstreamLimiter.Load ---------- *)
 Inductive sel := SelLocal | SelRemote | SelDefault | SelPanic.
@@ -377,6 +396,7 @@ Definition is_ready (st : static) (s : state) : bool :=
   match cs st with CSOk => hready s | _ => false end.
 
 Definition select (fx : bool) (st : static) (s : state) : sel :=
+  if negb (present s) then SelDefault else       (* GetOrDefault: unknown name -> the exempt default *)
   match md st with
   | MRemote =>
       match sstr s with
@@ -443,14 +463,15 @@ Definition observe (fx : bool) (st : static) (s : state) : obs :=
                             | Some w => match rin w with Some i => Some (il i) | None => None end
                             | None => None
                             end
+             | SelDefault => Some LInf
              | _ => None
              end in
     {| o_evp := false; o_sel := se; o_lim := l; o_adm := admitted (scfg s) l;
        o_ready := is_ready st s; o_rem := observe_rem s |}.
 
 (* the trace the harness records: one observation after every event *)
-Fixpoint trace (fx fy : bool) (st : static) (s : state) (l : list ev) : list (ev * obs) :=
+Fixpoint trace (fx fy fz : bool) (st : static) (s : state) (l : list ev) : list (ev * obs) :=
   match l with
   | [] => []
-  | e :: r => let s' := step fx fy st s e in (e, observe fx st s') :: trace fx fy st s' r
+  | e :: r => let s' := step fx fy fz st s e in (e, observe fx st s') :: trace fx fy fz st s' r
   end.
